@@ -1,4 +1,4 @@
-/* C07 — everything is reclaimed; descriptor use is hygienic.
+/* C07 - everything is reclaimed; descriptor use is hygienic.
  * Histories over three jet slots (raw tcp, websocket, raw uds) plus HTTP front-door probes and injected accept-path
  * failures, ended at every quiescent point either by closing all connections (idle baseline must be restored, then
  * SIGTERM) or by SIGTERM at once (every connection closed, everything released, clean exit). */
